@@ -37,6 +37,7 @@ func analysisCheck(cfg *core.Config, oracle, evalCounter, rule string, assumptio
 			opts := synth.RandomTypeOpts(r)
 			opts.Recursive = true
 			opts.Depth = 3 + i%3
+			opts.Pointers = i%2 == 0
 			p := synth.NewTypeProg(cfg.Seed, 5000+i, r, opts)
 			progs = append(progs, p)
 		}
